@@ -6,10 +6,12 @@
      em   what the server side emitted, in emission order:   [e |-> "l", n]  log message number n (numbered in emission order)
                                                              [e |-> "d", n]  data batch n      [e |-> "r"] unary result
                                                              [e |-> "s"]     finish            [e |-> "e"] the code raised
+                                                             [e |-> "h"]     the method returned its Stream with a header
      rv   what the caller observed, in the caller's order:   [e |-> "L", n, c]  on_log called with message n;
                                                                                 c = "intact" | "level" | "text" | "extra" | "garbled"
                                                              [e |-> "D", n]  batch n returned   [e |-> "R"] result returned
                                                              [e |-> "S"]     stream ended       [e |-> "E"] error raised
+                                                             [e |-> "H"]     the call returned a session carrying the header
 
    The operators are the invariants of LogOrder.tla and the judge of recorded real executions.                    *)
 EXTENDS Naturals, Sequences, FiniteSets
@@ -17,7 +19,8 @@ EXTENDS Naturals, Sequences, FiniteSets
 \* position in em of the emission that a received event corresponds to (0 = none)
 Match(ev) == CASE ev.e = "L" -> [e |-> "l", n |-> ev.n]  [] ev.e = "D" -> [e |-> "d", n |-> ev.n]
                [] ev.e = "R" -> [e |-> "r", n |-> 0]     [] ev.e = "S" -> [e |-> "s", n |-> 0]
-               [] ev.e = "E" -> [e |-> "e", n |-> 0]     [] OTHER -> [e |-> "?", n |-> 0]
+               [] ev.e = "E" -> [e |-> "e", n |-> 0]     [] ev.e = "H" -> [e |-> "h", n |-> 0]
+               [] OTHER -> [e |-> "?", n |-> 0]
 Pos(em, ev) == LET m == Match(ev) IN
                IF \E p \in 1..Len(em) : em[p].e = m.e /\ em[p].n = m.n
                THEN CHOOSE p \in 1..Len(em) : em[p].e = m.e /\ em[p].n = m.n /\ \A q \in 1..(p - 1) : ~(em[q].e = m.e /\ em[q].n = m.n)
@@ -31,9 +34,9 @@ InEmissionOrder(em, rv) ==             \* messages reach the callback in the ord
   \A i \in 1..Len(rv), j \in 1..Len(rv) :     \* (a message emitted AFTER a batch may be seen before that batch is
      (i < j /\ rv[i].e = "L" /\ rv[j].e = "L" /\ Pos(em, rv[i]) # 0 /\ Pos(em, rv[j]) # 0)   \* returned: HTTP preloads /init)
         => Pos(em, rv[i]) < Pos(em, rv[j])
-DeliveredBeforeOutcome(em, rv) ==      \* when a result / batch / end / error is handed to the caller, every message
+DeliveredBeforeOutcome(em, rv) ==      \* when a result / header / batch / end / error is handed to the caller, every message
   \A i \in 1..Len(rv) :                \* emitted before it has already been delivered  (=> exactly once, none lost)
-     (rv[i].e \in {"D", "R", "S", "E"} /\ Pos(em, rv[i]) # 0) =>
+     (rv[i].e \in {"D", "R", "S", "E", "H"} /\ Pos(em, rv[i]) # 0) =>
         \A q \in 1..(Pos(em, rv[i]) - 1) : em[q].e = "l" => \E j \in 1..(i - 1) : rv[j].e = "L" /\ rv[j].n = em[q].n
 ContentPreserved(em, rv) ==            \* level, text, extra fields arrive as emitted
   \A i \in 1..Len(rv) : rv[i].e = "L" => rv[i].c = "intact"
